@@ -247,6 +247,10 @@ func (r *runner) runTwin(sc *Scenario) (*twin, bool) {
 		}
 		nc := fdb.Commits() - before
 		stepCommits[i] = nc
+		if s.Op == "prune" && s.BatchBytes == 0 && nc == modelPruneBatches(sc.worldBefore(i), s) {
+			s.ModelBatches = true
+			r.res.Hit("prune-failing-batches-compared-with-model")
+		}
 		r.res.Hit(fmt.Sprintf("commits-per-%s:%d", s.Op, min(nc, 9)))
 		tw.digAfter = append(tw.digAfter, digest(store))
 		tw.looseAfter = append(tw.looseAfter, looseDigest(store))
@@ -765,6 +769,17 @@ func (r *runner) hitFeatures(sc *Scenario, i int) {
 		for n := bw.Floor; n < s.PruneTo && int(n) <= bw.Height(); n++ {
 			r.hitBlockFeatures("pruned-block:", bw.Chain[n], bw)
 		}
+		if len(s.L2) > 0 {
+			pending := uint64(0)
+			for _, num := range s.L2 {
+				var class string
+				_, _, pending, class = specL2(bw.L1, bw.Height(), num, s.Retained, s.L2Per, pending)
+				r.res.Hit("l2-event:" + class)
+			}
+			if s.PruneTo == uint64(bw.Height()) && s.PruneTo > bw.Floor {
+				r.res.Hit("l2-event:prunes-up-to-the-head")
+			}
+		}
 		if s.PruneTo%core.NumBlocksPerFilter == 0 && s.PruneTo > 0 {
 			r.res.Hit("prune-target:window-boundary")
 		}
@@ -938,8 +953,8 @@ func (r *runner) continueOnMidPrune(sc *Scenario, cp crashPoint, w0 *World, extr
 			all.add("later-call-fails", "step %d %s on the node that continued from the image after commit %d (floor %d): %v", j, s, cp.K, floor, err)
 			break
 		}
-		if s.Op == "prune" && s.PruneTo > floor && int(s.PruneTo) <= s.After.Height() {
-			floor = s.PruneTo
+		if t, ok := s.pruneTarget(sc.worldBefore(j)); s.Op == "prune" && ok && t > floor && int(t) <= s.After.Height() {
+			floor = t
 		}
 		w := s.After
 		w.Floor = floor
